@@ -898,7 +898,11 @@ META = {
             "root-right-left, left-right-root, right-left-root, iteration from any node yields the rest of its order, every "
             "order visits each element exactly once, fortear hands out postorder (children before parents) without ever "
             "reading a freed node (a read of a removed id is a stuck model), leaves the tree empty, and after ANY k steps the "
-            "remaining heap is again a tree holding exactly the rest. Tie: extracted model vs the real iterator macros on "
+            "remaining heap is again a tree holding exactly the rest. The same is proved for a tear-down STARTED AT ANY NODE x "
+            "(*next = x, as the header documents): never stuck, every node exactly once and after all nodes of its subtrees, in "
+            "exactly the order postorder(subtree of x) followed, for each ancestor in turn, by the postorder of its other subtree "
+            "(left or right) and the ancestor; tree, saved next and heap empty at the end; a tree of exactly the rest after ANY k "
+            "steps, resumable. Tie: extracted model vs the real iterator macros on "
             "real AVL and RB trees plus hand-linked shapes, ASan with free() in tear.",
     "note": "Trusted: Coq kernel; extraction (ExtrOcamlBasic only) + drivers; the navigation functions are a hand "
             "transcription run on the shape dumped from the C (differential testing on all shapes <= 7 (thorough 10) nodes, "
